@@ -29,7 +29,9 @@ HOSTILE_DATES = ["20230105T101500Z/202301", "120000/133000", "202301/20230105T10
                  "00000000", "20200230", "99991231T235959Z", "2020-03-10", "20200310T250000", "10000101T000000",
                  "20200310T100000ZZ", "20200310T", "T100000", "0001-01-01", "20200310T100000+0100", "",
                  "19700101T000000", "20380119T031408Z", "99999999T999999", "20200310T100000Z/PT1H",
-                 "20200310T100000/20200310T090000", "20200310T100000Z/20200310T110000", "P1D", "-P", "PT"]
+                 "20200310T100000/20200310T090000", "20200310T100000Z/20200310T110000", "P1D", "-P", "PT",
+                 # values of other DATE-TIME-like types where a DATE-TIME is expected: TIME, with and without Z
+                 "100000", "100000Z", "235959", "1000000"]
 HOSTILE_URIS = ["file://server\\new", "mailto:a\\nb@example.com", "mailto:a\\Nb@example.com", "http://x/\\,\\;",
                 "mailto:a\\\\nb@example.com", "", "mailto:", "http://x/%2C%3B%5C", "cid:<a\"b>", "data:;base64,%%%",
                 "urn:x:\\", "http://x/\x01", "mailto:ü@exämple.com"]
